@@ -1068,6 +1068,173 @@ pub fn gen_promotion(rng: &mut Rng) -> Scenario {
     gen_overlay(rng)
 }
 
+impl Room {
+    /// Replace event `idx` by an edited copy (same id): used to give an accepted event a sloppy
+    /// `auth_events` list or a chosen timestamp after the fact.
+    fn tamper(&mut self, idx: usize, f: impl FnOnce(&mut Ev)) {
+        let mut e = (*self.events[idx]).clone();
+        f(&mut e);
+        let e = Arc::new(e);
+        self.store.insert(e.id.clone(), e.clone());
+        self.events[idx] = e;
+    }
+}
+
+/// Histories with **sloppily selected auth events**: an event `Y` whose `auth_events` omit one of the
+/// selected auth events (the sender's membership, the power levels), cite a superseded event at a
+/// selected pair, or cite extra unrelated events — while that pair is *conflicted* between the forks
+/// (two different leaves of the sender), so that the partial resolved state has no entry there when
+/// `Y` is checked and only `Y`'s own `auth_events` decide. Another event `X` of the same pass, checked
+/// before `Y`, correctly cites the sender's (superseded) join. The auth state of `Y` must be built
+/// from `Y`'s auth events and the partial state at the selected pairs, nothing else: an
+/// implementation that lets entries of `X`'s auth state leak into `Y`'s authorises `Y`.
+pub fn gen_sloppy_auth(rng: &mut Rng) -> Scenario {
+    for _attempt in 0..6 {
+        let ver = *rng.pick(&[6u32, 9, 10, 11]);
+        let mut room = Room {
+            ver,
+            rules: rules_of(ver),
+            events: Vec::new(),
+            store: HashMap::new(),
+            state_after: HashMap::new(),
+            views: vec![BTreeSet::new(); 3],
+            clock: 10,
+            used_ids: HashSet::new(),
+            stats: BTreeMap::new(),
+            rejected: Vec::new(),
+        };
+        let alice = USERS[0];
+        let u = *rng.pick(&[USERS[1], USERS[2], USERS[4], USERS[5]]);
+        let w = *rng.pick(&[USERS[1], USERS[2], USERS[3]]);
+        let create = if ver >= 11 { json!({"room_version": ver.to_string()}) } else { json!({"creator": alice, "room_version": ver.to_string()}) };
+        let mut ok = true;
+        ok &= room.add(rng, 0, alice, "m.room.create", "", create, Some(vec![]));
+        ok &= room.add(rng, 0, alice, "m.room.member", alice, member("join"), None);
+        ok &= room.add(rng, 0, alice, "m.room.power_levels", "", json!({"users": {alice: 100, u: 50, w: 50}}), None);
+        ok &= room.add(rng, 0, alice, "m.room.join_rules", "", json!({"join_rule": "public"}), None);
+        room.gossip(rng, true);
+        // optionally an older, superseded membership of `u`
+        let rejoined = rng.chance(1, 2);
+        let mut old_membership = None;
+        if rejoined {
+            ok &= room.add(rng, server_of(u), u, "m.room.member", u, member("join"), None);
+            old_membership = Some(room.events.len() - 1);
+            room.gossip(rng, true);
+            ok &= room.add(rng, server_of(u), u, "m.room.member", u, member("leave"), None);
+            room.gossip(rng, true);
+        }
+        ok &= room.add(rng, server_of(u), u, "m.room.member", u, member("join"), None);
+        room.gossip(rng, true);
+        if w != u {
+            ok &= room.add(rng, server_of(w), w, "m.room.member", w, member("join"), None);
+            room.gossip(rng, true);
+        }
+        if !ok {
+            continue;
+        }
+        let w_join = room.events.len() - 1;
+        let base = room.tips(0);
+        let t0 = room.clock + 10;
+        // fork A: X (correct auth events, cites u's join), then u leaves
+        ok &= room.add(rng, server_of(u), u, "m.room.topic", "", json!({"topic": "x"}), Some(base.clone()));
+        let x = room.events.len() - 1;
+        ok &= room.add(rng, server_of(u), u, "m.room.member", u, json!({"membership": "leave", "reason": "a"}), Some(vec![x]));
+        let a2 = room.events.len() - 1;
+        // fork B: Y (sloppy auth events), then another removal of u
+        let y_ty = *rng.pick(&["m.room.name", "m.room.name", "x.custom"]);
+        ok &= room.add(rng, server_of(u), u, y_ty, "", json!({"name": "y"}), Some(base));
+        let y = room.events.len() - 1;
+        let self_leave = !rng.chance(1, 4);
+        if self_leave {
+            ok &= room.add(rng, server_of(u), u, "m.room.member", u, json!({"membership": "leave", "reason": "b"}), Some(vec![y]));
+        } else {
+            ok &= room.add(rng, 0, alice, "m.room.member", u, json!({"membership": "leave", "reason": "kick"}), Some(vec![y]));
+        }
+        let b2 = room.events.len() - 1;
+        if !ok || b2 != y + 1 || y != a2 + 1 || a2 != x + 1 {
+            continue;
+        }
+        // timestamps: usually X < Y < the removals (the order of the mainline sort)
+        if !rng.chance(1, 4) {
+            room.tamper(x, |e| e.ts = ms(t0));
+            room.tamper(y, |e| e.ts = ms(t0 + 5));
+            room.tamper(a2, |e| e.ts = ms(t0 + 10));
+            room.tamper(b2, |e| e.ts = ms(t0 + 11));
+        }
+        // make Y's auth events sloppy
+        let store = room.store.clone();
+        let is_member_of = |id: &OwnedEventId, who: &str| {
+            store.get(id).is_some_and(|e| e.ty == TimelineEventType::RoomMember && e.state_key.as_deref() == Some(who))
+        };
+        let is_pl = |id: &OwnedEventId| store.get(id).is_some_and(|e| e.ty == TimelineEventType::RoomPowerLevels);
+        let old_id = old_membership.map(|i| room.events[i].id.clone());
+        let w_id = room.events[w_join].id.clone();
+        let jr_id = room.events.iter().find(|e| e.ty == TimelineEventType::RoomJoinRules).map(|e| e.id.clone());
+        let kind = rng.below(6);
+        room.tamper(y, |e| match kind {
+            0 => e.auth.retain(|a| !is_member_of(a, u)),
+            1 => {
+                e.auth.retain(|a| !is_member_of(a, u));
+                e.auth.push(w_id.clone());
+                if let Some(j) = &jr_id {
+                    e.auth.push(j.clone());
+                }
+            }
+            2 => {
+                // cite the superseded membership instead (or nothing, when there is none)
+                e.auth.retain(|a| !is_member_of(a, u));
+                if let Some(o) = &old_id {
+                    e.auth.push(o.clone());
+                }
+            }
+            3 => e.auth.retain(|a| !is_pl(a)),
+            4 => {
+                e.auth.retain(|a| !is_pl(a) && !is_member_of(a, u));
+            }
+            _ => {
+                // correct selection plus extra unrelated events
+                if !e.auth.contains(&w_id) {
+                    e.auth.push(w_id.clone());
+                }
+                if let Some(j) = &jr_id {
+                    e.auth.push(j.clone());
+                }
+            }
+        });
+        // sometimes X is sloppy too (extra events), Y stays as made above
+        if rng.chance(1, 4) {
+            room.tamper(x, |e| {
+                if !e.auth.contains(&w_id) {
+                    e.auth.push(w_id.clone());
+                }
+            });
+        }
+        let mut forks = vec![a2, b2];
+        if rng.chance(1, 4) {
+            forks.push(rng.below(room.events.len()));
+        }
+        rng.shuffle(&mut forks);
+        let mut sets = Vec::new();
+        let mut chains = Vec::new();
+        for &f in &forks {
+            let st = &room.state_after[&room.events[f].id];
+            let mut set: Vec<(String, String, OwnedEventId)> =
+                st.iter().map(|((t, k), i)| (t.clone(), k.clone(), i.clone())).collect();
+            rng.shuffle(&mut set);
+            let mut chain: Vec<OwnedEventId> =
+                auth_chain(&room.store, st.values().cloned()).into_iter().collect();
+            rng.shuffle(&mut chain);
+            sets.push(set);
+            chains.push(chain);
+        }
+        let mut events = room.events.clone();
+        rng.shuffle(&mut events);
+        let rejected = room.rejected.clone();
+        return Scenario { ver, events, sets, chains, rejected };
+    }
+    gen_overlay(rng)
+}
+
 /// The F4 witness of DESIGN §7: two conflicting topics, one sent before the only power-levels
 /// event (ts 50), one citing it (ts 20).
 pub fn f4_witness(ver: u32) -> Scenario {
@@ -1242,4 +1409,160 @@ pub fn shape(sc: &Scenario) -> String {
         flags.push_str("+0");
     }
     flags
+}
+
+// ------------------------------------------------------------------------------------------
+// the hypotheses of the C07 refinement theorems, evaluated independently of the Lean checkers
+// (`Lemmas/StateResHyp.lean`: `roomOkB`, `f4FreeB`); the driver's answers to `c07.hyp` must agree
+// ------------------------------------------------------------------------------------------
+
+fn is_pl_ev(e: &Ev) -> bool {
+    e.ty == TimelineEventType::RoomPowerLevels && e.state_key.as_deref() == Some("")
+}
+fn is_create_ev(e: &Ev) -> bool {
+    e.ty == TimelineEventType::RoomCreate && e.state_key.as_deref() == Some("")
+}
+
+/// `fetch_event` as the model has it: the first listed event with that id.
+fn fetch<'a>(sc: &'a Scenario, id: &OwnedEventId) -> Option<&'a AEv> {
+    sc.events.iter().find(|e| &e.id == id)
+}
+
+/// The first power-levels event among the known auth events, in the order listed.
+fn pl_among<'a>(sc: &'a Scenario, e: &Ev) -> Option<&'a AEv> {
+    e.auth.iter().filter_map(|a| fetch(sc, a)).find(|a| is_pl_ev(a))
+}
+
+/// `RoomOk` (DESIGN §6 C06/C07 `WF`): state maps and chains are maps/sets; every event of the full
+/// conflicted set is known, has among its known auth events at most one power-levels event and
+/// exactly the room's create event, and is not a create event itself; the store is closed under
+/// auth events and acyclic; the state sets mention known events only.
+pub fn room_ok(sc: &Scenario) -> bool {
+    for s in &sc.sets {
+        let keys: BTreeSet<(&String, &String)> = s.iter().map(|(t, k, _)| (t, k)).collect();
+        if keys.len() != s.len() {
+            return false;
+        }
+    }
+    for c in &sc.chains {
+        if c.iter().collect::<BTreeSet<_>>().len() != c.len() {
+            return false;
+        }
+    }
+    let Some(c0) = sc.events.iter().find(|e| is_create_ev(e)).and_then(|c| fetch(sc, &c.id)) else { return false };
+    for n in full_conflicted(sc) {
+        let Some(e) = fetch(sc, &n) else { return false };
+        let auth: Vec<&AEv> = e.auth.iter().filter_map(|a| fetch(sc, a)).collect();
+        if auth.iter().filter(|a| is_pl_ev(a)).count() > 1 || auth.iter().filter(|a| is_create_ev(a)).count() > 1 {
+            return false;
+        }
+        match auth.iter().find(|a| is_create_ev(a)) {
+            Some(c) if c.id == c0.id => {}
+            _ => return false,
+        }
+        if is_create_ev(e) {
+            return false;
+        }
+    }
+    if sc.events.iter().any(|e| e.auth.iter().any(|a| fetch(sc, a).is_none())) {
+        return false;
+    }
+    // acyclic: peel events all of whose auth events are peeled
+    let mut done: HashSet<&OwnedEventId> = HashSet::new();
+    loop {
+        let before = done.len();
+        for e in &sc.events {
+            if !done.contains(&e.id) && e.auth.iter().all(|a| done.contains(a)) {
+                done.insert(&e.id);
+            }
+        }
+        if done.len() == before {
+            break;
+        }
+    }
+    if sc.events.iter().any(|e| !done.contains(&e.id)) {
+        return false;
+    }
+    sc.sets.iter().all(|s| s.iter().all(|(_, _, i)| fetch(sc, i).is_some()))
+}
+
+/// The spec's power-event predicate (not the code's: `m.room.create` is not one).
+fn spec_power_event(e: &Ev) -> bool {
+    if (e.ty == TimelineEventType::RoomPowerLevels || e.ty == TimelineEventType::RoomJoinRules) && e.state_key.as_deref() == Some("") {
+        return true;
+    }
+    if e.ty == TimelineEventType::RoomMember {
+        let m = e.content_val.get("membership").and_then(|m| m.as_str());
+        return matches!(m, Some("leave") | Some("ban")) && e.state_key.as_deref() != Some(e.sender.as_str());
+    }
+    false
+}
+
+/// `F4Free`: whichever event of the store (or none) is taken as the resolved power-levels event, the
+/// events left for the mainline ordering (full conflicted set minus the power events and their auth
+/// chains inside it) all have a mainline ancestor or none has.
+pub fn f4_free(sc: &Scenario) -> bool {
+    let fc = full_conflicted(sc);
+    // power events of the full conflicted set, closed under auth events inside it
+    let mut x: BTreeSet<OwnedEventId> =
+        fc.iter().filter(|i| fetch(sc, i).is_some_and(|e| spec_power_event(e))).cloned().collect();
+    loop {
+        let mut add = Vec::new();
+        for i in &x {
+            if let Some(e) = fetch(sc, i) {
+                for a in &e.auth {
+                    if fc.contains(a) && !x.contains(a) {
+                        add.push(a.clone());
+                    }
+                }
+            }
+        }
+        if add.is_empty() {
+            break;
+        }
+        x.extend(add);
+    }
+    let rest: Vec<&AEv> = fc.iter().filter(|i| !x.contains(*i)).filter_map(|i| fetch(sc, i)).collect();
+    let fuel = sc.events.len() + 1;
+    let mut candidates: Vec<Option<&AEv>> = vec![None];
+    candidates.extend(sc.events.iter().map(Some));
+    for p in candidates {
+        // mainline of p, p last
+        let mut ml: Vec<OwnedEventId> = Vec::new();
+        let mut cur = p;
+        let mut f = fuel;
+        while let Some(e) = cur {
+            if f == 0 {
+                break;
+            }
+            f -= 1;
+            ml.insert(0, e.id.clone());
+            cur = pl_among(sc, e);
+        }
+        let pos = |e: &AEv| -> usize {
+            let mut cur = Some(e);
+            let mut f = fuel;
+            while let Some(c) = cur {
+                if f == 0 {
+                    return 0;
+                }
+                f -= 1;
+                if let Some(i) = ml.iter().position(|m| m == &c.id) {
+                    return i + 1;
+                }
+                cur = pl_among(sc, c);
+            }
+            0
+        };
+        let ps: Vec<usize> = rest.iter().map(|e| pos(e)).collect();
+        if !(ps.iter().all(|&p| p != 0) || ps.iter().all(|&p| p == 0)) {
+            return false;
+        }
+    }
+    true
+}
+
+/// The harness' answer to `c07.hyp`.
+pub fn hyp_answer(sc: &Scenario) -> String {
+    format!("{}+{}", if room_ok(sc) { "wf" } else { "nowf" }, if f4_free(sc) { "f4free" } else { "f4" })
 }
